@@ -254,6 +254,37 @@ def run(ctx: Ctx):
             raise Machinery("vacuous pair table")
         ctx.sample({"pair": rp.prints[len(rp.prints) // 3]})
 
+    # ------------------------------------------------------------- values that differ although they are "close" or denote the same instant
+    from zoneinfo import ZoneInfo as _ZI
+    from datetime import datetime as _dt, date as _d, timedelta as _td
+
+    def _with(name, value, params=None):
+        e = Event()
+        e.add("uid", "same")
+        e.add(name, value, parameters=params)
+        return e
+    near = [("geo", (48.20668612, 16.37011), (48.20668613, 16.37011)), ("geo", (0.0, 1e-12), (0.0, 2e-12)), ("geo", (1.0, 2.0), (1.0000000001, 2.0)),
+            ("dtstart", _dt(2024, 6, 1, 12, 0, tzinfo=_ZI("Europe/Berlin")), _dt(2024, 6, 1, 12, 0, tzinfo=_ZI("Europe/Paris"))),
+            ("dtstart", _dt(2024, 6, 1, 12, 0, tzinfo=_ZI("Europe/Berlin")), _dt(2024, 6, 1, 10, 0, tzinfo=_ZI("UTC"))),
+            ("dtstart", _dt(2024, 6, 1, 0, 0), _d(2024, 6, 1)), ("duration", _td(hours=24), _td(days=1, seconds=1)),
+            ("exdate", [_dt(2024, 6, 1, 12, 0, tzinfo=_ZI("Europe/Berlin"))], [_dt(2024, 6, 1, 12, 0, tzinfo=_ZI("Europe/Paris"))]),
+            ("summary", "caf\u00e9", "cafe\u0301"), ("summary", "a", "A"), ("priority", 1, True), ("x-num", "1", "1.0"), ("sequence", 0, False)]
+    for name, va, vb in near:
+        a_, b_ = _with(name, va), _with(name, vb)
+        ctx.evaluations += 1
+        ctx.case(("near", name, repr(va), repr(vb)), True)
+        if a_.to_ical() == b_.to_ical():
+            continue          # the two spellings are the same property on the wire: nothing to distinguish
+        r3 = eq3(a_, b_)
+        if r3 != {"eq": False, "eqr": False, "ne": True}:
+            ctx.fail("P:C20:eq-matches-ref", {"what": "components that serialise differently compare equal", "name": name, "a": repr(va), "b": repr(vb)}, r3, None)
+        cal_a, cal_b = Calendar(), Calendar()
+        cal_a.add_component(a_)
+        cal_b.add_component(b_)
+        r3 = eq3(cal_a, cal_b)
+        if r3 != {"eq": False, "eqr": False, "ne": True}:
+            ctx.fail("P:C20:eq-matches-ref", {"what": "trees whose subcomponents serialise differently compare equal", "name": name, "a": repr(va), "b": repr(vb)}, r3, None)
+
     # ------------------------------------------------------------- RECORD
     ev, meta = [], []
     n = 40 if ctx.quick else 400
